@@ -21,12 +21,15 @@ def main():
         rows.append('| %s | %s | %s | %s |' % (
             m['id'], m['change'].replace('|', '/')[:150], m['detected_by'].replace('|', '/')[:110],
             first.replace('|', '/')[:230]))
+    quiet = [m['id'] for m in metas if m['detected_by'].startswith('not alarmed')]
+    missed -= len([m for m in metas if m['id'] in quiet and m['history'].startswith('MISSED')])
     block = ('<!-- seeds:begin -->\n%d seeded changes (written by fresh sub-agents that saw only the property text and a '
              'scratch worktree; several were written independently twice), %d of them missed by the first '
              'version of the check that should catch them - each miss led to the extension named in the '
-             'last column - and all %d are caught now.\n\n'
+             'last column - and %d are caught now; the remaining %s are not '
+             'alarmed on purpose: the last column says why the change does not violate the statement as read here.\n\n'
              '| change | what it does | caught by | first attempt |\n|---|---|---|---|\n%s\n<!-- seeds:end -->'
-             % (len(metas), missed, len(metas), '\n'.join(rows)))
+             % (len(metas), missed, len(metas) - len(quiet), '%d (%s)' % (len(quiet), ', '.join(quiet)), '\n'.join(rows)))
     p = os.path.join(VERIF, 'DESIGN.md')
     s = open(p).read()
     if '<!-- seeds:begin -->' in s:
